@@ -34,7 +34,8 @@ INFO = dict(
     ],
 )
 
-EVO_STRATEGIES = ["CMA_ES", "Sep_CMA_ES", "SimpleGA", "DE", "PSO", "SimpleES", "RandomSearch", "SNES"]
+# rank-based strategies; OpenES only with rank-based fitness shaping (with raw fitness values one NaN loss poisons its mean, see notes/C18.md)
+EVO_STRATEGIES = ["CMA_ES", "Sep_CMA_ES", "SimpleGA", "DE", "PSO", "SimpleES", "RandomSearch", "SNES", "OpenES"]
 
 
 # ------------------------------------------------------------------------------------------------
@@ -65,11 +66,11 @@ def _rand_loss(rng, d, u_min, u_max, p_nan_choices):
     if rng.random() < 0.3:
         spec["l1"] = True
     r = rng.random()
-    if r < 0.45:
-        spec["q"] = rng.choice([0.125, 0.25, 0.5, 1.0])  # quantised => ties
-    elif r < 0.55:
+    if r < 0.55:
+        spec["q"] = rng.choice([0.25, 0.5, 1.0, 2.0])  # quantised => ties
+    elif r < 0.65:
         spec["const"] = rng.choice([0.0, 1.5, -2.0])
-    if rng.random() < 0.4:
+    if rng.random() < 0.3:
         ax = rng.randrange(d)
         spec["nan_region"] = [ax, _f32(rng.uniform(u_min[ax], u_max[ax])), rng.random() < 0.5]
     if rng.random() < 0.25:
@@ -92,7 +93,7 @@ def gen_cem(rng, idx, scan):
     return dict(
         kind="cem", idx=idx, leaves=leaves, u_min=u_min, u_max=u_max, mean0=mean0, stdev0=stdev0, num_samples=n, elite_portion=portion,
         smoothing=_f32(rng.choice([0.0, 0.1, 0.5, 1.0, rng.uniform(0, 1)])), steps=5, seed=rng.randrange(1 << 30),
-        loss=_rand_loss(rng, d, u_min, u_max, [0.0, 0.0, 0.3, 0.6, 0.85, 0.85, 1.0]), scan=scan,
+        loss=_rand_loss(rng, d, u_min, u_max, [0.0, 0.0, 0.2, 0.4, 0.6, 0.85, 1.0]), scan=scan,
     )
 
 
@@ -102,11 +103,12 @@ def gen_evo(rng, idx, scan):
     u_max = [b if b > a else _f32(a + 1.0) for a, b in zip(u_min, u_max)]
     mean0 = [_f32((a + b) / 2) for a, b in zip(u_min, u_max)]
     strategy = EVO_STRATEGIES[idx % len(EVO_STRATEGIES)]
-    kw = dict(popsize=rng.choice([6, 8, 12]))
+    kw = dict(popsize=rng.choice([8, 10, 12]))
     if strategy in ("CMA_ES", "Sep_CMA_ES"):
         kw.update(elite_ratio=rng.choice([0.25, 0.5]), sigma_init=rng.choice([0.3, 1.0]))
+    fk = dict(centered_rank=True) if strategy == "OpenES" else {}
     return dict(
-        kind="evo", idx=idx, leaves=leaves, u_min=u_min, u_max=u_max, mean0=mean0, strategy=strategy, strategy_kwargs=kw, fitness_kwargs={},
+        kind="evo", idx=idx, leaves=leaves, u_min=u_min, u_max=u_max, mean0=mean0, strategy=strategy, strategy_kwargs=kw, fitness_kwargs=fk,
         steps=5, seed=rng.randrange(1 << 30), logger=rng.random() < 0.5, scan=scan,
         loss=_rand_loss(rng, d, u_min, u_max, [0.0, 0.2, 0.4, 0.7, 1.0]),
     )
@@ -129,7 +131,7 @@ def _fmt(xs):
 
 
 def _short(cfg):
-    keys = ("kind", "num_samples", "elite_portion", "smoothing", "u_min", "u_max", "mean0", "stdev0", "strategy", "strategy_kwargs", "seed", "loss")
+    keys = ("kind", "num_samples", "elite_portion", "smoothing", "u_min", "u_max", "mean0", "stdev0", "strategy", "strategy_kwargs", "fitness_kwargs", "seed", "loss")
     return {k: cfg[k] for k in keys if k in cfg}
 
 
@@ -362,9 +364,9 @@ def run(ctx):
             tasks.append(dict(fn=f["task"], args=dict(cfg=f["cfg"]), timeout=300))
     if not tasks:
         n_cem = ctx.n(60, 1000)
-        n_evo = ctx.n(8, 96)
+        n_evo = ctx.n(9, 99)
         if ctx.search:
-            n_cem, n_evo = 360, 32
+            n_cem, n_evo = 360, 36
         n_scan = max(4, n_cem // 10)
         for i in range(n_cem):
             cfg = gen_cem(rng, i, scan=("jit" if i % 2 else "eager") if i < n_scan else None)
